@@ -6,6 +6,17 @@ SRC="${MRL_REPO:-/repo}"
 rm -rf "$OUT"; mkdir -p "$OUT/repo"
 ( cd "$SRC" && tar cf - --exclude=./target --exclude=./.git . ) | ( cd "$OUT/repo" && tar xf - )
 if [ "$PATCH" != "-" ]; then
+  if ! ( cd "$OUT/repo" && patch -p1 -s --no-backup-if-mismatch --dry-run < "$PATCH" >/dev/null 2>&1 ); then
+    # corpus patches written before the fourth repair (b18ff6e, RollingWriter::write / FileTracker::untrack) that
+    # rewrite the very lines it touched are applied to the tree they were written for (its parent, 8a84cd9); the
+    # marker makes the harness leave GC13 -- the finding that repair answers -- out of the verdict (DESIGN 6.5)
+    PRE="${MRL_PRE_FIX4_COMMIT:-8a84cd9}"
+    if [ -z "$MRL_REPO" ] && git -C "$SRC" cat-file -e "$PRE^{commit}" 2>/dev/null; then
+      rm -rf "$OUT/repo"; mkdir -p "$OUT/repo"
+      git -C "$SRC" archive "$PRE" | ( cd "$OUT/repo" && tar xf - )
+      touch "$OUT/PRE_FIX4"
+    fi
+  fi
   ( cd "$OUT/repo" && patch -p1 -s --no-backup-if-mismatch < "$PATCH" ) || { echo "PATCH-FAILED $PATCH"; exit 3; }
 fi
 /verif/driver/run.sh "$OUT/repo" "$OUT/facts" scratch "$MODE"
